@@ -1,6 +1,6 @@
 #!/bin/bash
 # runs every check of a tier and prints one line each: tools/sweep.sh quick|thorough [seed]
-cd /verif
+cd "$(dirname "$0")/.."
 TIER=${1:-quick}; export VERIF_SEED=${2:-1}
 for id in C01 C02 C03 C04 C05 C06 C07 C08 C09 C10 C11 C12 C13 C14 C15 C16 C17 C18 C19 C20; do
   s=$(date +%s)
